@@ -155,6 +155,8 @@ class SymExec:
                 return ("fn", norm(op["fn"]))
             if "promoted" in op:
                 return self.promoted(op["promoted"])
+            if "value" in op:
+                return self.const_tree(op["value"])
             v = const_of(op)
             if v is None:
                 v = op.get("item") or ("zst" if op.get("zst") else op.get("dbg", "?"))
@@ -167,6 +169,16 @@ class SymExec:
                         return ("adt", norm(ty) + "::" + name, ())
             return ("c", ty, v)
         return ("?", "op")
+
+    def const_tree(self, j):
+        if "fields" in j:
+            fs = tuple(self.const_tree(f) for f in j["fields"])
+            if j["ty"].startswith("("):
+                return ("tuple", fs)
+            return ("adt", norm(j["ty"]).split("<")[0] + "::" + j.get("vname", "?"), fs)
+        if "bits" in j:
+            return self.operand({}, {"k": "const", "ty": j["ty"], "bits": j["bits"]})
+        return ("?", "const")
 
     def promoted(self, idx):
         try:
